@@ -37,35 +37,66 @@ package nsqd
 //@ ghost authQueries int
 //@ ghost lastAuthQueryOK bool
 //@ func (c *clientV2) QueryAuthd() error
-//@   trusted
-//@   ensures result != nil ==> c.AuthState == old(c.AuthState)
-//@   ensures result == nil ==> c.AuthState != nil
-//@   modifies c.AuthState, authQueries, lastAuthQueryOK
+//@   props C11
+//@   requires c != nil && c.nsqd != nil && c.Conn != nil
+//   (round 4, area E) the body is verified now (was `trusted`). The first two clauses are the old stub's, unchanged; [auth-configured]
+//   is the call protocol the stub left implicit: with an empty server list QueryAnyAuthd returns (nil, nil) and the cached answer
+//   would be replaced by nil - AUTH and CheckAuth only get here after IsAuthEnabled().
+//@   requires[auth-configured] len(curOpts(c.nsqd).AuthHTTPAddresses) != 0
+//@   ensures[error-keeps-answer] result != nil ==> c.AuthState == old(c.AuthState)
+//@   ensures[success-stores-answer] result == nil ==> c.AuthState != nil
+//@   ensures[stored-is-the-answer-of-this-query] result == nil ==> r4EAnyAuthdCalls == old(r4EAnyAuthdCalls) + 1 && c.AuthState == r4EAnyAuthdState && r4EAnyAuthdErr == nil && fresh(c.AuthState)
+//@   ensures[expiry-from-this-answer] result == nil ==> c.AuthState.TTL > 0 && unixNano(c.AuthState.Expires) <= unixNano(lastNow) + c.AuthState.TTL * 1000000000 &&
+//@        (c.AuthState.TTL <= 9223372036 ==> unixNano(c.AuthState.Expires) == unixNano(lastNow) + c.AuthState.TTL * 1000000000)
+//@   ensures[answer-validated] result == nil ==> forall i int :: {c.AuthState.Authorizations[i]} 0 <= i && i < len(c.AuthState.Authorizations) ==> auth.r4EAuthzOK(c.AuthState.Authorizations[i])
+//@   ensures[error-is-the-servers] r4EAnyAuthdCalls != old(r4EAnyAuthdCalls) ==> result == r4EAnyAuthdErr
+//@   ensures[asked-unless-address-unusable] r4EAnyAuthdCalls == old(r4EAnyAuthdCalls) ==> result != nil && r4ENetworkOf(remoteOf(c.Conn)) == "tcp" && splitFails(addrString(remoteOf(c.Conn)))
+//@   ensures[servers-and-options-as-configured] r4EAnyAuthdCalls != old(r4EAnyAuthdCalls) ==> r4EAnyAuthdCalls == old(r4EAnyAuthdCalls) + 1 && r4EAnyAuthdList == curOpts(c.nsqd).AuthHTTPAddresses &&
+//@        r4EAnyAuthdTLSConf == c.nsqd.clientTLSConfig && r4EAnyAuthdConnTO == curOpts(c.nsqd).HTTPClientConnectTimeout && r4EAnyAuthdReqTO == curOpts(c.nsqd).HTTPClientRequestTimeout &&
+//@        r4EAnyAuthdMethod == curOpts(c.nsqd).AuthHTTPRequestMethod
+//@   ensures[secret-tls-ip-as-given] r4EAnyAuthdCalls != old(r4EAnyAuthdCalls) ==> r4EAnyAuthdSecret == c.AuthSecret && r4EAnyAuthdTLS == (c.TLS == 1) &&
+//@        r4EAnyAuthdRemoteIP == (r4ENetworkOf(remoteOf(c.Conn)) == "tcp" ? hostOf(addrString(remoteOf(c.Conn))) : "")
+//@   ensures[common-name-only-from-the-peer-certificate] r4EAnyAuthdCalls != old(r4EAnyAuthdCalls) ==>
+//@        r4EAnyAuthdCN == (c.TLS == 1 && len(r4EPeerCerts) > 0 ? r4EPeerCerts[0].Subject.CommonName : "")
+//@   modifies c.AuthState, authQueries, lastAuthQueryOK, lastNow
 //@   onreturn authQueries := authQueries + 1
 //@   onreturn lastAuthQueryOK := result == nil
 
 //@ func (c *clientV2) IsAuthorized(topic, channel string) (bool, error)
 //@   props C11
-//@   requires c != nil
+//   (round 4, area E) c.nsqd / c.Conn / [auth-configured]: preconditions of the now verified QueryAuthd (CheckAuth calls this only after
+//   IsAuthEnabled()). QueryAuthd reads the clock again for the new expiry, so "expired" is stated against the reading of the
+//   expiry check (r4EExpiryClock, set by State.IsExpired) instead of lastNow: same meaning as before.
+//@   requires c != nil && c.nsqd != nil && c.Conn != nil
+//@   requires[auth-configured] len(curOpts(c.nsqd).AuthHTTPAddresses) != 0
 //@   ensures[no-answer] old(c.AuthState) == nil ==> !result0 && result1 == nil
 //@   ensures[granted-by-current-answer] result0 ==> result1 == nil && c.AuthState != nil && auth.stateAllows(c.AuthState, topic, channel)
 //@   ensures[denied] result1 == nil && !result0 && c.AuthState != nil ==> !auth.stateAllows(c.AuthState, topic, channel)
-//@   ensures[refetch-iff-expired] old(c.AuthState) != nil ==> (authQueries == old(authQueries) + 1 <==> unixNano(old(c.AuthState.Expires)) < unixNano(lastNow)) && (authQueries == old(authQueries) || authQueries == old(authQueries) + 1)
+//@   ensures[refetch-iff-expired] old(c.AuthState) != nil ==> (authQueries == old(authQueries) + 1 <==> unixNano(old(c.AuthState.Expires)) < unixNano(r4EExpiryClock)) && (authQueries == old(authQueries) || authQueries == old(authQueries) + 1)
 //@   ensures[auth-error] result1 != nil ==> !result0
-//@   ensures[never-on-a-stale-answer] result0 && old(c.AuthState) != nil && unixNano(old(c.AuthState.Expires)) < unixNano(lastNow) ==> lastAuthQueryOK && authQueries == old(authQueries) + 1
-//@   modifies c.AuthState, authQueries, lastNow, lastAuthQueryOK
+//@   ensures[never-on-a-stale-answer] result0 && old(c.AuthState) != nil && unixNano(old(c.AuthState.Expires)) < unixNano(r4EExpiryClock) ==> lastAuthQueryOK && authQueries == old(authQueries) + 1
+//   (round 4, area E) a re-fetched answer is the answer of THAT query and carries its own expiry; a cached answer that was used was not expired
+//@   ensures[refetched-answer-is-fresh] result0 && authQueries != old(authQueries) ==> fresh(c.AuthState) && c.AuthState == r4EAnyAuthdState && c.AuthState.TTL > 0 &&
+//@        unixNano(c.AuthState.Expires) <= unixNano(lastNow) + c.AuthState.TTL * 1000000000
+//@   ensures[cached-answer-kept-only-if-not-expired] result1 == nil && old(c.AuthState) != nil && authQueries == old(authQueries) ==> c.AuthState == old(c.AuthState) && unixNano(c.AuthState.Expires) >= unixNano(r4EExpiryClock)
+//@   modifies c.AuthState, authQueries, lastNow, lastAuthQueryOK, r4EExpiryClock
 
 // CheckAuth: nil only if auth is off, or the client has authorizations and the current answer
 // grants this topic/channel; otherwise one of the documented fatal errors.
 //@ func (p *protocolV2) CheckAuth(client *clientV2, cmd, topicName, channelName string) error
 //@   props C11
 //@   requires p != nil && p.nsqd != nil && client != nil && client.nsqd != nil
+//   (round 4, area E) precondition of the verified QueryAuthd (the connection the remote IP is taken from)
+//@   requires[connected] client.Conn != nil
 //@   ensures[granted] result == nil ==> len(curOpts(client.nsqd).AuthHTTPAddresses) == 0 || (client.AuthState != nil && auth.stateAllows(client.AuthState, topicName, channelName))
 //@   ensures[auth-first] len(curOpts(client.nsqd).AuthHTTPAddresses) != 0 && (old(client.AuthState) == nil || len(old(client.AuthState.Authorizations)) == 0) ==> isFatalCode(result, "E_AUTH_FIRST")
 //@   ensures[codes] result != nil ==> isFatalCode(result, "E_AUTH_FIRST") || isFatalCode(result, "E_AUTH_FAILED") || isFatalCode(result, "E_UNAUTHORIZED")
-//@   modifies client.AuthState, authQueries, lastNow, lastAuthQueryOK, authCalls, authOK
+//@   modifies client.AuthState, authQueries, lastNow, lastAuthQueryOK, authCalls, authOK, r4EExpiryClock
 //   that the gate ran and its verdict, for the publish handlers' contracts (ghosts in zz_contracts_publish_verif.go)
 //@   onreturn authCalls := authCalls + 1
 //@   onreturn authOK := result == nil
 //@ ghostgroup authCalls, authOK, authQueries, lastAuthQueryOK
+// (round 4, area E) the records of the verified query chain (internal/auth QueryAnyAuthd / QueryAuthd, http_api.NewClient, url.Values.Set,
+// net.SplitHostPort, tls.Conn.ConnectionState) change wherever authQueries may change: every frame that names authQueries names them.
+//@ ghostgroup[lead] authQueries, r4EAnyAuthdCalls, r4EAuthdQueries, r4EQSets, r4EHCCalls, cfgRemoteAddr, r4EPeerCerts
 //@ pred isFatalCode(err error, code string) := dyntype(err) == typetag("*protocol.FatalClientErr") && unbox(err, "*protocol.FatalClientErr").Code == code
